@@ -1,8 +1,138 @@
+import DeapModel.Core.Variation
 import Driver.Proto
-/-! Protocol handler for C02 (stub until the model is built). -/
+/-!
+Protocol handler for C02 (variation).
+
+    C02 and <pop> <heap> <cxpb> <mutpb> <draws> <script>
+    C02 or  <pop> <heap> <lambda> <cxpb> <mutpb> <tape> <script>
+
+* `pop`    comma list of oids (positions of the population; repeats allowed), `-` = empty
+* `heap`   `;`-separated objects for the oids 0,1,…: `<genome>|<fit>`; genome = comma list of ints
+           (`-` = empty), fit = `none` or a comma list of ints; `-` = no object
+* `cxpb`, `mutpb`, every `random()` result: `f:<bits>` (IEEE replay of the comparison)
+* `draws`  (and) comma list of `random()` results
+* `tape`   (or) comma list of `r:<bits>` (random), `s:<i>:<j>` (sample → positions), `c:<i>` (choice)
+* `script` `;`-separated recorded operator calls, in call order:
+           `M/<a>/<b>/<ra>/<rb>/<genome a>/<genome b>`  mate called on oids a b, returned ra rb
+           `U/<a>/<ra>/<genome>`                      mutate called on a, returned ra
+           the scripted operator refuses (→ `bad-tape`) a call whose arguments differ from the record.
+
+Answer: `off=<oids> cls=<f|i<k>…> objs=<obj;…> par=<obj;…> log=<events>`; `bad-tape` when the tape or
+the script does not fit the model's run, `assert` for varOr's `cxpb + mutpb <= 1.0`, `bad-op` on
+malformed input.
+-/
 namespace DriverC02
+open Proto Variation
+
+inductive Call where
+  | mate (a b ra rb : Nat) (ga gb : List Int)
+  | mutate (a ra : Nat) (g : List Int)
+
+structure Script where
+  calls : List Call
+  ok : Bool := true
+
+def scripted : Ops Script where
+  mate := fun t h a b =>
+    match t.ok, t.calls with
+    | true, Call.mate a' b' ra rb ga gb :: rest =>
+      if a = a' ∧ b = b' then
+        ⟨⟨rest, true⟩, (h.set a { h a with genome := ga }).set b { h b with genome := gb }, ra, rb⟩
+      else ⟨⟨rest, false⟩, h, a, b⟩
+    | _, _ => ⟨⟨[], false⟩, h, a, b⟩
+  mutate := fun t h a =>
+    match t.ok, t.calls with
+    | true, Call.mutate a' ra g :: rest =>
+      if a = a' then ⟨⟨rest, true⟩, h.set a { h a with genome := g }, ra⟩
+      else ⟨⟨rest, false⟩, h, a⟩
+    | _, _ => ⟨⟨[], false⟩, h, a⟩
+
+def parseObj (s : String) : Option Obj :=
+  match s.splitOn "|" with
+  | [g, f] => do
+    let genome ← parseList parseInt g
+    let fit ← if f = "none" then some none else (parseList parseInt f).map some
+    some ⟨genome, fit⟩
+  | _ => none
+
+def parseHeap (s : String) : Option (List Obj) :=
+  if s = "-" then some [] else (s.splitOn ";").mapM parseObj
+
+def parseCall (s : String) : Option Call :=
+  match s.splitOn "/" with
+  | ["M", a, b, ra, rb, ga, gb] => do
+    some (Call.mate (← parseNat a) (← parseNat b) (← parseNat ra) (← parseNat rb)
+      (← parseList parseInt ga) (← parseList parseInt gb))
+  | ["U", a, ra, g] => do
+    some (Call.mutate (← parseNat a) (← parseNat ra) (← parseList parseInt g))
+  | _ => none
+
+def parseScript (s : String) : Option (List Call) :=
+  if s = "-" then some [] else (s.splitOn ";").mapM parseCall
+
+def parseDraw (s : String) : Option Draw :=
+  match s.splitOn ":" with
+  | ["r", "f", b] => (parseFloat ("f:" ++ b)).map Draw.rnd
+  | ["s", i, j] => do some (Draw.sample (← parseNat i) (← parseNat j))
+  | ["c", i] => (parseNat i).map Draw.choice
+  | _ => none
+
+def showObj (o : Obj) : String :=
+  showList toString o.genome ++ "|" ++ (match o.fit with | none => "none" | some f => showList toString f)
+
+def showEv : Ev → String
+  | .clone a b => "c" ++ toString a ++ ">" ++ toString b
+  | .mate a b => "m" ++ toString a ++ "&" ++ toString b
+  | .mutate a => "u" ++ toString a
+
+def mkState (objs : List Obj) : St :=
+  { heap := fun o => (objs[o]?).getD ⟨[], none⟩, next := objs.length }
+
+def showRes (pop : List Nat) (n0 : Nat) (r : Res Script) : String :=
+  if !r.tape.ok || !r.tape.calls.isEmpty then "bad-tape" else
+  let cls := r.off.map (fun o => if o < n0 then "i" ++ toString (pop.idxOf o) else "f")
+  "off=" ++ showList toString r.off ++ " cls=" ++ showList id cls
+    ++ " objs=" ++ (if r.off.isEmpty then "-" else ";".intercalate (r.off.map (fun o => showObj (r.st.heap o))))
+    ++ " par=" ++ (if n0 = 0 then "-" else ";".intercalate ((List.range n0).map (fun o => showObj (r.st.heap o))))
+    ++ " log=" ++ showList showEv r.st.log
 
 def handle : List String → String
+  | ["and", pops, heaps, cx, mu, draws, scr] =>
+    match (do
+      let pop ← parseList parseNat pops
+      let objs ← parseHeap heaps
+      let cxpb ← parseFloat cx
+      let mutpb ← parseFloat mu
+      let ds ← parseList parseFloat draws
+      let sc ← parseScript scr
+      if pop.all (· < objs.length) then pure (pop, objs, cxpb, mutpb, ds, sc) else none) with
+    | none => "bad-op"
+    | some (pop, objs, cxpb, mutpb, ds, sc) =>
+      match decodeAnd cxpb mutpb pop.length ds with
+      | none => "bad-tape"
+      | some (mateD, mutD) =>
+        match varAnd scripted ⟨sc, true⟩ (mkState objs) pop mateD mutD with
+        | none => "bad-tape"
+        | some r => showRes pop objs.length r
+  | ["or", pops, heaps, lams, cx, mu, tape, scr] =>
+    match (do
+      let pop ← parseList parseNat pops
+      let objs ← parseHeap heaps
+      let lam ← parseNat lams
+      let cxpb ← parseFloat cx
+      let mutpb ← parseFloat mu
+      let ds ← parseList parseDraw tape
+      let sc ← parseScript scr
+      if pop.all (· < objs.length) then pure (pop, objs, lam, cxpb, mutpb, ds, sc) else none) with
+    | none => "bad-op"
+    | some (pop, objs, lam, cxpb, mutpb, ds, sc) =>
+      if !orAssert cxpb mutpb then "assert" else
+      match decodeOr cxpb mutpb lam ds with
+      | none => "bad-tape"
+      | some choices =>
+        match varOr scripted ⟨sc, true⟩ (mkState objs) pop lam choices with
+        | none => "bad-tape"
+        | some r => showRes pop objs.length r
   | _ => "bad-op"
 
 end DriverC02
